@@ -988,7 +988,7 @@ func (req *IdpAuthnRequest) getSPEncryptionCert() (*x509.Certificate, error) {
 	certStr := ""
 	for _, keyDescriptor := range req.SPSSODescriptor.KeyDescriptors {
 		if keyDescriptor.Use == "encryption" {
-			if len(keyDescriptor.KeyInfo.X509Data.X509Certificates) == 0 {
+			if len(keyDescriptor.KeyInfo.X509Data.X509Certificates) == 0 || keyDescriptor.KeyInfo.X509Data.X509Certificates[0].Data == "" {
 				return nil, fmt.Errorf("encryption key descriptor contains no certificate")
 			}
 			certStr = keyDescriptor.KeyInfo.X509Data.X509Certificates[0].Data
